@@ -171,6 +171,13 @@ func RunScalarClosedForm(c *core.Ctx, checkOptimality bool) {
 	}
 	logSchedule(c, res)
 	c.Logf("sequential: %v %s   parallel: %v %s", seq.params, seq.err, par.params, par.err)
+	if gamma != nil && t.Bool(1, 3) {
+		off := []float64{800, 1000, -800, -1000, 60, -60}[t.Choose(6)]
+		e3, _ := fam.mk()
+		sh := estimateScalar(e3, x, shiftGamma(gamma, off), tp.ThreadPool{})
+		c.Logf("log-weights + %g: %v %s", off, sh.params, sh.err)
+		offsetInvariance(c, "scalar:"+famKind(fam.name), off, seq, sh, 1e-8)
+	}
 	compare(c, "scalar:"+famKind(fam.name), cfg, seq, par, 1e-9)
 	inputsUnchanged(c, "scalar:"+famKind(fam.name), before, snapVecs([]ad.ConstVector{x, gamma}))
 	c.Nontriv = n >= 2
